@@ -406,6 +406,27 @@ func runC20(c *Ctx) {
 			}
 			r.Check(good, "R3", key, c.pos(w.recCall), "recursion into the element's own children with the (rest of the) same query", why)
 		}
+		// the path walker collects over all siblings: nothing found under one matching group (or an error from
+		// there) does not end the scan of the others — its loop has no exit but exhaustion
+		if w.isPath && w.loop != nil {
+			key := fname(f) + ":path-scan-covers-all-siblings"
+			var early ssa.Instruction
+			for b := range w.loop.Blocks {
+				if b == w.loop.Head {
+					continue
+				}
+				for _, s := range b.Succs {
+					if !w.loop.Blocks[s] && early == nil {
+						early = b.Instrs[len(b.Instrs)-1]
+					}
+				}
+			}
+			if early != nil {
+				r.Fail("R3", key, c.pos(early), "the path walker can leave its loop before the last sibling: when one group matching the leading path element lacks the rest of the path, the AVPs under the later (and the results from the earlier) matching groups are not returned")
+			} else {
+				r.Ok("R3", key, c.pos(w.recCall), "the sibling loop of the path walker has no exit but exhaustion")
+			}
+		}
 	}
 
 	// ---- R4 ----
@@ -524,6 +545,23 @@ func runC20(c *Ctx) {
 			})
 		}
 		r.Check(good, "R4", key, c.pos(wcall), "searches m.AVP for the Code of the dictionary AVP resolved from the argument, only when the lookup succeeded", why)
+		// the search mode is fixed by the entry point, not computed: FindAVPs collects every occurrence, FindAVP
+		// stops at the first — whatever the dictionary, the command or the message say
+		if wf := flow.StaticCallee(wcall); wf != nil && len(wf.Params) >= 3 && len(wcall.Call.Args) >= 3 && name != "FindAVPsWithPath" {
+			if bt, ok := wf.Params[2].Type().Underlying().(*types.Basic); ok && bt.Kind() == types.Bool {
+				mkey := fname(f) + ":search-mode-fixed"
+				k, isK := wcall.Call.Args[2].(*ssa.Const)
+				want := name == "FindAVPs"
+				switch {
+				case !isK || k.Value == nil:
+					r.Fail("R4", mkey, c.pos(wcall), "whether "+name+" collects every occurrence or stops at the first is computed at run time ("+short(wcall.Call.Args[2].String(), 40)+"): for some messages the walk ends early and occurrences further on (nested ones in particular) are not returned")
+				case (k.Value.String() == "true") != want:
+					r.Fail("R4", mkey, c.pos(wcall), fmt.Sprintf("%s runs the walk with collect-all = %s", name, k.Value.String()))
+				default:
+					r.Ok("R4", mkey, c.pos(wcall), fmt.Sprintf("%s always runs the walk with collect-all = %v", name, want))
+				}
+			}
+		}
 	}
 }
 
